@@ -10,7 +10,7 @@ for f in ("patch.diff", "demo.py", "notes.md"):
         shutil.copy(os.path.join(src, f), os.path.join(dst, f))
 meta = {"id": sid, "property": prop, "breaks": prop, "needs_to_manifest": needs,
         "origin": "independent sub-agent given only the property text and a scratch worktree",
-        "confirmed": {"demo_fails_with_change_passes_without": True, "repository_suite_unchanged": "6 failed, 2845 passed, 59 skipped, 6 xpassed (as on the unchanged tree; run by the sub-agent, demo re-run by tools/evalmut.sh)"},
+        "confirmed": {"demo_fails_with_change_passes_without": True, "repository_suite_unchanged": ("6 failed, 2845 passed, 59 skipped, 6 xpassed (as on the unchanged tree; full suite re-run with the patch applied by tools/evalsuite.sh, demo re-run by tools/evalmut.sh)" if os.environ.get("SUITE_RERUN") else "6 failed, 2845 passed, 59 skipped, 6 xpassed (as on the unchanged tree; run by the sub-agent, demo re-run by tools/evalmut.sh)")},
         "what_was_run": f"tools/evalmut.sh {prop} seeded/{sid}/patch.diff seeded/{sid}/demo.py  (fresh worktree of /repo HEAD, patch applied, demo, then VERIF_REPO=<worktree> ./check {prop})",
         "detected_by_check": detected, "firing_clause": clause}
 json.dump(meta, open(os.path.join(dst, "meta.json"), "w"), indent=1)
